@@ -245,6 +245,9 @@ func (m *Mirror) HandleProposedHeader(ctx context.Context, ph tmconsensus.Propos
 		return tmconsensus.HandleProposedHeaderMissingProposerPubKey
 	}
 
+	// Set once we have backfilled the previous height's commit from this header.
+	backfilledCommit := false
+
 RESTART:
 	req := tmi.PHCheckRequest{
 		PH:   ph,
@@ -280,6 +283,12 @@ RESTART:
 		return tmconsensus.HandleProposedHeaderSignerUnrecognized
 	case tmi.PHCheckNextHeight:
 		// Special case: we make an additional request to the kernel if the PH is for the next height.
+		if backfilledCommit {
+			// The header's previous commit proof did not move the mirror to the header's height,
+			// so checking again would only repeat the same outcome forever.
+			return tmconsensus.HandleProposedHeaderRoundTooFarInFuture
+		}
+		backfilledCommit = true
 		m.backfillCommitForNextHeightPE(ctx, req.PH)
 		goto RESTART // TODO: find a cleaner way to apply the proposed block after backfilling commit.
 	case tmi.PHCheckRoundTooOld:
